@@ -29,6 +29,14 @@ func main() {
 		os.Exit(cmdSelftest(os.Args[2:]))
 	case "multicheck":
 		os.Exit(cmdMulti(os.Args[2:]))
+	case "fingerprints":
+		// regenerates the reference table from a reviewed tree: fscheck fingerprints /repo > fscheck/fingerprints.json
+		p := mustLoad(os.Args[2])
+		b, _ := json.MarshalIndent(p.computeFingerprints(), "", " ")
+		fmt.Println(string(b))
+	case "roles":
+		mustLoad(os.Args[2])
+		debugTypeRoles()
 	case "funcs":
 		p := mustLoad("/repo")
 		for _, f := range p.Funcs {
